@@ -175,40 +175,39 @@ Section UniqueId.
 End UniqueId.
 
 (* ---------------------------------------------------------------- from_tx *)
+(* from_txin / from_txout / from_tx assign struct fields; written as the list of (field, assigned value) with None = left at its default *)
 Definition u32_enc (n : N) : bytes := le_enc 4 n.
-Definition set_opt (m : pmap) (f : field) (v : option bytes) : pmap := match v with Some _ => set_unk m f v | None => m end.
-Definition from_txin (i : txin) : pmap :=
-  let has_iss := ti_has_issuance i in
-  let idx0 := ti_vout i in
-  let idx1 := if ti_pegin i then N.lor idx0 (2 ^ 30) else idx0 in
-  let idx2 := if has_iss then N.lor idx1 (2 ^ 31) else idx1 in
-  let m := set_unk (set_unk empty_map F_prev_txid (Some (ti_txid i))) F_prev_index (Some (u32_enc idx2)) in
-  let m := set_unk m F_sequence (Some (u32_enc (ti_sequence i))) in
-  let m := set_unk m F_final_script_sig (Some (ti_script_sig i)) in
-  let m := set_unk m F_final_script_witness (Some (ti_script_witness i)) in
-  let m := if ti_pegin i then set_unk m F_pegin_witness (Some (ti_pegin_witness i)) else m in
-  if has_iss then
-    let m := set_unk m F_iss_nonce (Some (ti_iss_nonce i)) in
-    let m := set_unk m F_iss_entropy (Some (ti_iss_entropy i)) in
-    let m := match ti_iss_amount i with CNull => m | CExplicit x => set_unk m F_iss_amount (Some x) | CConf c => set_unk m F_iss_comm (Some c) end in
-    let m := match ti_iss_keys i with CNull => m | CExplicit x => set_unk m F_iss_keys (Some x) | CConf c => set_unk m F_iss_keys_comm (Some c) end in
-    let m := set_opt m F_iss_keys_rangeproof (ti_keys_rangeproof i) in
-    set_opt m F_iss_value_rangeproof (ti_amount_rangeproof i)
-  else m.
+Definition of_entries (l : list (field * option bytes)) : pmap :=
+  mkmap (fun f => match find (fun e => bytes_eqb f (fst e)) l with Some e => snd e | None => None end) (fun _ => []).
+Definition txin_index (i : txin) : N :=
+  let idx1 := if ti_pegin i then N.lor (ti_vout i) (2 ^ 30) else ti_vout i in
+  if ti_has_issuance i then N.lor idx1 (2 ^ 31) else idx1.
+Definition cv_explicit (c : cval) : option bytes := match c with CExplicit x => Some x | _ => None end.
+Definition cv_conf (c : cval) : option bytes := match c with CConf x => Some x | _ => None end.
+Definition txin_entries (i : txin) : list (field * option bytes) :=
+  let hi := ti_has_issuance i in
+  let when (b : bool) (v : option bytes) := if b then v else None in
+  [ (F_prev_txid, Some (ti_txid i)); (F_prev_index, Some (u32_enc (txin_index i)));
+    (F_sequence, Some (u32_enc (ti_sequence i))); (F_final_script_sig, Some (ti_script_sig i));
+    (F_final_script_witness, Some (ti_script_witness i));
+    (F_pegin_witness, when (ti_pegin i) (Some (ti_pegin_witness i)));
+    (F_iss_nonce, when hi (Some (ti_iss_nonce i))); (F_iss_entropy, when hi (Some (ti_iss_entropy i)));
+    (F_iss_amount, when hi (cv_explicit (ti_iss_amount i))); (F_iss_comm, when hi (cv_conf (ti_iss_amount i)));
+    (F_iss_keys, when hi (cv_explicit (ti_iss_keys i))); (F_iss_keys_comm, when hi (cv_conf (ti_iss_keys i)));
+    (F_iss_keys_rangeproof, when hi (ti_keys_rangeproof i)); (F_iss_value_rangeproof, when hi (ti_amount_rangeproof i)) ].
+Definition from_txin (i : txin) : pmap := of_entries (txin_entries i).
 Definition nonce_key (c : cval) : option bytes := match c with CConf k => Some k | _ => None end.   (* Nonce::commitment() *)
-Definition from_txout (o : txout) : pmap :=
-  let m := empty_map in
-  let m := match to_value o with CNull => m | CExplicit x => set_unk m F_amount (Some x) | CConf c => set_unk m F_amount_comm (Some c) end in
-  let m := match to_asset o with CNull => m | CExplicit x => set_unk m F_asset (Some x) | CConf c => set_unk m F_asset_comm (Some c) end in
-  let m := if to_is_partially_blinded o then set_opt m F_ecdh_pubkey (nonce_key (to_nonce o))
-           else set_opt m F_blinding_key (nonce_key (to_nonce o)) in
-  let m := set_unk m F_script_pubkey (Some (to_spk o)) in
-  let m := set_opt m F_value_rangeproof (to_rangeproof o) in
-  set_opt m F_asset_surjection_proof (to_surjection_proof o).
+Definition txout_entries (o : txout) : list (field * option bytes) :=
+  let pb := to_is_partially_blinded o in
+  [ (F_amount, cv_explicit (to_value o)); (F_amount_comm, cv_conf (to_value o));
+    (F_asset, cv_explicit (to_asset o)); (F_asset_comm, cv_conf (to_asset o));
+    (F_ecdh_pubkey, if pb then nonce_key (to_nonce o) else None);
+    (F_blinding_key, if pb then None else nonce_key (to_nonce o));
+    (F_script_pubkey, Some (to_spk o)); (F_value_rangeproof, to_rangeproof o); (F_asset_surjection_proof, to_surjection_proof o) ].
+Definition from_txout (o : txout) : pmap := of_entries (txout_entries o).
 Definition from_tx (t : tx) : pset :=
-  let g := set_unk empty_map (fld "version") (Some (u32_enc 2)) in
-  let g := set_unk g F_tx_version (Some (u32_enc (tx_version t))) in
-  let g := set_unk g F_fallback (Some (u32_enc (tx_lock_time t))) in
-  let g := set_unk g F_input_count (Some (vi_enc (N.of_nat (length (tx_ins t))))) in
-  let g := set_unk g F_output_count (Some (vi_enc (N.of_nat (length (tx_outs t))))) in
+  let g := of_entries [ (fld "version", Some (u32_enc 2)); (F_tx_version, Some (u32_enc (tx_version t)));
+                        (F_fallback, Some (u32_enc (tx_lock_time t)));
+                        (F_input_count, Some (vi_enc (N.of_nat (length (tx_ins t)))));
+                        (F_output_count, Some (vi_enc (N.of_nat (length (tx_outs t))))) ] in
   mkpset g (map from_txin (tx_ins t)) (map from_txout (tx_outs t)).
